@@ -1,6 +1,8 @@
-(* Proofs/DHCPRefuted.v — the faithful model of the UNCHANGED code violates C11:
-   concrete histories (the ones of corpus/C11/witnesses.txt, replayed on the real
-   code by the harness) evaluated by vm_compute. *)
+(* Proofs/DHCPRefuted.v — statements of C12 the faithful model still violates:
+   concrete histories (corpus/C12/witnesses.txt, replayed on the real code by the
+   harness) evaluated by vm_compute.  (The C11 refutations of the unchanged code
+   disappeared with the repairs recorded in FIXLOG.md; their witnesses stay in
+   corpus/C11 as regression cases.) *)
 From PV Require Import Base.Prelude Model.DHCP Model.DHCPShow Spec.DHCP Spec.DHCPCheck Proofs.DHCP.
 Open Scope N_scope.
 
@@ -15,59 +17,6 @@ Definition ipA : ip := 3232235525.   (* 192.168.0.5 *)
 Definition ipBC : ip := 3232235535.  (* 192.168.0.15: broadcast of the /28 *)
 Definition us : option ip := Some 3232235529.
 
-(* W3: two clients DISCOVER the same requested address, both SELECT it *)
-Definition w3 : list op :=
-  [ODiscover 0 (dmsg0 c1 1 (Some ipA) None); ODiscover 0 (dmsg0 c2 2 (Some ipA) None);
-   ORequest 0 (dmsg0 c1 1 (Some ipA) us); ORequest 0 (dmsg0 c2 2 (Some ipA) us)].
-(* W2: the subnet broadcast address is requested, offered and acknowledged *)
-Definition w2 : list op :=
-  [ODiscover 0 (dmsg0 c1 1 (Some ipBC) None); ORequest 0 (dmsg0 c1 1 (Some ipBC) us)].
-(* W4: an offer retained across MinuteTicker is repeated after another client was ACKed the address *)
-Definition ipB : ip := 3232235522.   (* 192.168.0.2: first pool address *)
-Definition w4 : list op :=
-  [ODiscover 0 (dmsg0 c1 1 None None); OTick 0; ODiscover 0 (dmsg0 c2 2 (Some ipB) None);
-   ORequest 0 (dmsg0 c2 2 (Some ipB) us); ODiscover 0 (dmsg0 c1 3 None None)].
-
-Lemma uniq_refuted : exists c h, ~ Uniq (tbl (fst (run c (init c) h))).
-Proof.
-  exists wcfg, (with_ch0 w3). intro H. apply uniqb_spec in H. vm_compute in H. discriminate.
-Qed.
-
-(* an OFFER names an address that is acknowledged to another client id at that step *)
-Lemma no_offer_of_acked_refuted : exists c h t m r,
-  In t (trace c (init c) h) /\ op_msg (t_op t) = Some m /\ t_reply t = Some r /\
-  r_type r = ROffer /\ acked_to_other (tbl (t_post t)) (getcid m) (r_yi r) = true.
-Proof.
-  exists wcfg, (with_ch0 w4).
-  destruct (rev (trace wcfg (init wcfg) (with_ch0 w4))) as [|t rest] eqn:E; [vm_compute in E; discriminate|].
-  exists t, (dmsg0 c1 3 None None).
-  assert (Hin : In t (trace wcfg (init wcfg) (with_ch0 w4))).
-  { apply in_rev. rewrite E. left. reflexivity. }
-  vm_compute in E. inversion E; subst t. clear E.
-  eexists. split; [exact Hin|]. repeat split.
-Qed.
-
-(* an OFFER and an ACK carry the broadcast address of the client's subnet *)
-Lemma reserved_refuted : exists c h t m r,
-  In t (trace c (init c) h) /\ op_msg (t_op t) = Some m /\ t_reply t = Some r /\
-  r_type r = RAck /\ reserved c (sess_at c (t_pre t) m) (client_net c (t_pre t) m) (m_chaddr m) (r_yi r) = true.
-Proof.
-  exists wcfg, (with_ch0 w2).
-  destruct (rev (trace wcfg (init wcfg) (with_ch0 w2))) as [|t rest] eqn:E; [vm_compute in E; discriminate|].
-  exists t, (dmsg0 c1 1 (Some ipBC) us).
-  assert (Hin : In t (trace wcfg (init wcfg) (with_ch0 w2))).
-  { apply in_rev. rewrite E. left. reflexivity. }
-  vm_compute in E. inversion E; subst t. clear E.
-  eexists. split; [exact Hin|]. repeat split.
-Qed.
-
-(* ---------------------------------------------------------------- *)
-(* C12 on the unchanged code *)
-
-Definition ip8888 : ip := 134744072.
-Definition w12_free : list op := [ORequest 0 (dmsg0 c3 0 (Some ipA) us)].
-Definition w12_req : list op :=
-  [ODiscover 0 (dmsg0 c2 2 (Some ip8888) None); ORequest 0 (dmsg0 c2 2 (Some ip8888) us)].
 Definition w12_prl : list op := [ODiscover 0 (mkMsg c1 1 0 None None None false 0 [3; 1; 6])].
 
 Ltac last_step c w :=
@@ -76,26 +25,6 @@ Ltac last_step c w :=
   exists t;
   assert (Hin : In t (trace c (init c) (with_ch0 w))) by (apply in_rev; rewrite E; left; reflexivity);
   vm_compute in E; inversion E; subst t; clear E.
-
-(* an ACK carries an address outside the subnet selected by the client's capture state *)
-Lemma reply_subnet_refuted : exists c h t m r,
-  In t (trace c (init c) h) /\ op_msg (t_op t) = Some m /\ t_reply t = Some r /\
-  r_type r = RAck /\ c12_subnet c (t_pre t) m r = false.
-Proof.
-  exists wcfg, (with_ch0 w12_req). last_step wcfg w12_req.
-  exists (dmsg0 c2 2 (Some ip8888) us). eexists. split; [exact Hin|]. repeat split.
-Qed.
-
-(* an ACK that confirms neither an offer of this transaction nor a current lease, for a request
-   that cannot be honoured (the client is unknown) *)
-Lemma ack_matches_refuted : exists c h t m r,
-  In t (trace c (init c) h) /\ op_msg (t_op t) = Some m /\ t_reply t = Some r /\
-  r_type r = RAck /\ c12_ack_matches (t_pre t) m r = false /\
-  cannot_honour c (t_pre t) m = true.
-Proof.
-  exists wcfg, (with_ch0 w12_free). last_step wcfg w12_free.
-  exists (dmsg0 c3 0 (Some ipA) us). eexists. split; [exact Hin|]. repeat split.
-Qed.
 
 (* the router option precedes the subnet mask when the client's parameter list says so *)
 Lemma mask_first_refuted : exists c h t r,
